@@ -79,7 +79,9 @@ func Boot(w *world.World, cfg Cfg, d *Durable, inc int) *Node {
 	n.Pol = &SimPolicy{w: w, node: cfg.ID, life: n.Life, Suspicious: d.Suspicious, MinMsat: cfg.MinMsat}
 	var pol swap.Policy = n.Pol
 	if cfg.Policy != nil {
-		pol = cfg.Policy
+		// a policy supplied by the scenario (e.g. the real policy.Policy on a real file): recording a
+		// suspicious peer is an effect operation of this incarnation (a crash point, and impossible after death)
+		pol = &opPolicy{Policy: cfg.Policy, life: n.Life}
 	}
 	boc := NewBitcoinOnChain()
 	var btcWallet, lbtcWallet swap.Wallet
